@@ -5,9 +5,10 @@ from . import checks, core
 
 
 def all_checks():
-    from . import hchecks
+    from . import hchecks, lchecks
     d = dict(checks.CHECKS)
     d.update(hchecks.HCHECKS)
+    d.update(lchecks.LCHECKS)
     return d
 
 
